@@ -513,7 +513,7 @@ type CaseC20 struct {
 	Rounds     int      `json:"rounds"`
 	Procs      int      `json:"gomaxprocs"`
 	Salt       uint64   `json:"salt"`
-	Lean       bool     `json:"lean,omitempty"` // goroutines only decode, re-encode and compare bytes (no harness reflection in the loop)
+	Lean       bool     `json:"lean,omitempty"`   // goroutines only decode, re-encode and compare bytes (no harness reflection in the loop)
 	Millis     int      `json:"millis,omitempty"` // crowd mode: every goroutine keeps calling for this long (so that all of them are descheduled mid-call)
 }
 
